@@ -378,4 +378,33 @@ def logAction (ev : String → Outcome) (tpl : String) (tp ctx : String) (collec
               if collect then r.watches else [], if collect then 1 else 0⟩
   | .error _ => ⟨[], none, [], 0⟩     -- the formatter raised: the action (snapshot included) is lost
 
+/-! ### several tracepoints on one event: the results they attach, and `TriggerContext.__exit__` -/
+
+/-- what a tracepoint of the event does: snapshot only, log only, snapshot carrying a log message -/
+inductive TpKind | snap | log | snapLog
+deriving DecidableEq, Repr
+
+/-- an attached result: the log message for the logger, or the snapshot for the push service -/
+inductive ResKind | logMsg | push
+deriving DecidableEq, Repr
+
+/-- results attached by the actions of the event, in processing order, tagged with the tracepoint's position
+    (a snapshot action with a log message attaches its LogActionResult before its snapshot result) -/
+def resultsOf : Nat → List TpKind → List (Nat × ResKind)
+  | _, [] => []
+  | i, .snap :: r => (i, .push) :: resultsOf (i + 1) r
+  | i, .log :: r => (i, .logMsg) :: resultsOf (i + 1) r
+  | i, .snapLog :: r => (i, .logMsg) :: (i, .push) :: resultsOf (i + 1) r
+
+/-- `TriggerContext.__exit__`: process the results in order; `fails r` = processing `r` raises an Exception
+    (push refused, logger raising).  Returns the results that were processed to the end. -/
+def resultLoop (guard : Option Py.Exn) (fails : Nat × ResKind → Bool) : List (Nat × ResKind) → List (Nat × ResKind)
+  | [] => []
+  | r :: rs =>
+    if fails r then (if guard.isSome then resultLoop guard fails rs else [])
+    else r :: resultLoop guard fails rs
+
+def delivered (tps : List TpKind) (fails : Nat × ResKind → Bool) : List (Nat × ResKind) :=
+  resultLoop resultLoopGuard fails (resultsOf 0 tps)
+
 end Template
